@@ -195,6 +195,14 @@ class Ctx:
             return None
         return a * b
 
+    def atom_square(self, G):
+        """square of a sqrt-key atom: prime int p (sqrt p), polynomial g (sqrt g), ('abs', f) (|f|)"""
+        if isinstance(G, int):
+            return G
+        if isinstance(G, tuple):
+            return self.K(G[1]) ** 2
+        return self.K(G)
+
     def add_side(self, kind, k):
         key = (kind, k)
         if key in self._side_seen:
@@ -326,7 +334,7 @@ class S:
                 c = c1 * c2
                 if s1 and s2:
                     for G in s1 & s2:
-                        c = c * (G if isinstance(G, int) else ctx.K(G))
+                        c = c * ctx.atom_square(G)
                     s = s1 ^ s2
                 else:
                     s = s1 or s2
@@ -354,7 +362,7 @@ class S:
             ctx.add_side("nonzero", ctx.K(c.numer))
         cc = 1 / c
         for G in s:
-            cc = cc / (G if isinstance(G, int) else ctx.K(G))
+            cc = cc / ctx.atom_square(G)
         return S(ctx, {(-e, s, frozenset()): cc})
 
     def __truediv__(self, o):
@@ -413,14 +421,19 @@ class S:
                 f = -f
                 if m % 2:
                     const = -const
-            if h:
-                if sg is None:
-                    raise Unsupported("sqrt extracts a factor of unknown sign")
-                coef = coef * ctx.K(f) ** h
             if m % 2:
                 if sg is None:
-                    ctx.add_side("pos", ctx.K(f))
+                    ctx.add_side("pos", ctx.K(f))   # sqrt(f^odd): f > 0 is a side condition
                 key.add(f)
+                if h:
+                    coef = coef * ctx.K(f) ** h
+            elif h:
+                if sg is None and h % 2:
+                    # sqrt(f^(2h)) = |f|^h with the sign of f unknown: |f| is kept as an atom
+                    coef = coef * ctx.K(f) ** (h - 1)
+                    key.add(("abs", f))
+                else:
+                    coef = coef * ctx.K(f) ** h
         if const < 0:
             raise Unsupported("sqrt of a negative constant factor")
         # rational constant: extract squares, remaining primes become integer sqrt atoms
@@ -447,7 +460,10 @@ class S:
         out = ctx.rat(e) if e != 0 else ctx.ZERO
         d = {}
         for G in s:
-            d[G] = d.get(G, Fraction(0)) + Fraction(1, 2)
+            if isinstance(G, tuple):
+                d[G[1]] = d.get(G[1], Fraction(0)) + 1          # ln| |f| | = ln|f|
+            else:
+                d[G] = d.get(G, Fraction(0)) + Fraction(1, 2)
         const, facs = ctx.factor_K(c)
         for f, m in facs:
             d[f] = d.get(f, Fraction(0)) + m
@@ -516,7 +532,9 @@ class S:
             if e != 0:
                 fe(e)
             for G in s:
-                if not isinstance(G, int):
+                if isinstance(G, tuple):
+                    poly(G[1])
+                elif not isinstance(G, int):
                     poly(G)
             for H, _ in l:
                 if not isinstance(H, int):
@@ -530,7 +548,7 @@ class S:
             if e != 0:
                 p += f"*exp({e})"
             for G in s:
-                p += f"*sqrt({G})"
+                p += f"*|{G[1]}|" if isinstance(G, tuple) else f"*sqrt({G})"
             for H, pw in l:
                 p += f"*ln|{H}|" + (f"^{pw}" if pw != 1 else "")
             parts.append(p)
@@ -562,7 +580,10 @@ class S:
             if e != 0:
                 v *= math.exp(ev(e))
             for G in s:
-                v *= math.sqrt(G if isinstance(G, int) else evp(G))
+                if isinstance(G, tuple):
+                    v *= abs(evp(G[1]))
+                else:
+                    v *= math.sqrt(G if isinstance(G, int) else evp(G))
             for H, pw in l:
                 v *= math.log(abs(H if isinstance(H, int) else evp(H))) ** pw
             tot += v
